@@ -45,12 +45,7 @@ def scenario(ctx):
     init = None
     if not mpi and t.flag(1, 3):
         m = t.irange(1, min(4, P.n))
-        frames = []
-        while len(frames) < m:
-            f = t.draw(P.n)
-            if f not in frames:
-                frames.append(f)
-        init = frames
+        init = t.perm(P.n)[:m]       # m distinct frames (a bounded number of draws, also on a shortened tape)
         ctx.hit('init_centers_run')
     poison = t.draw(7) if (mpi and t.flag()) else 0
     spec = dict(algo='kcenters', form=form, k=k, cutoff=cutoff, tri=tri, spelling=spelling)
